@@ -147,6 +147,25 @@ def tf_case(i, t, rng):
             "seeks": [{"field": f, "term": "T", "prog": [["adv"], ["same"], ["adv"], ["end"]]}]}
 
 
+def many_case(i, m, rng):
+    """documents whose (field, value) pairs of several text fields are interleaved in the TLC-generated order; every
+    value is one or two distinct tokens, so a permuted value shows in the positions"""
+    fields = ["pos", "nn", "frq"][:m["nfields"]]
+    docs = []
+    for variant in range(3):
+        d, order, count = {}, [], {}
+        for j, fno in enumerate(m["order"]):
+            f = fields[(fno - 1 + variant) % len(fields)]
+            k = count.get(f, 0)
+            count[f] = k + 1
+            toks = [[f"v{variant}_{f}_{k}", 0, 1]] + ([["w1", 1, 1]] if j % 4 == 0 else [])
+            d.setdefault(f, []).append(toks)
+            order.append([f, k])
+        d["order"] = order
+        docs.append(d)
+    return {"id": i, "kind": "many", "many": {k: m[k] for k in ("nfields", "pairs", "pattern")}, "segs": [docs], "deletes": [], "merge": False, "seeks": []}
+
+
 def describe(unit, k, text):
     e = unit[k - 1]
     seg = next((x for x in reversed(unit[:k]) if x.get("ev") == "seg"), {})
@@ -165,7 +184,7 @@ def describe(unit, k, text):
 
 def run_cases(ctx, cases, label):
     cp = ctx.path(f"{label}_cases.ndjson")
-    vlib.write_ndjson(cp, [{k: v for k, v in c.items() if k not in ("kind", "shape", "tf")} for c in cases])
+    vlib.write_ndjson(cp, [{k: v for k, v in c.items() if k not in ("kind", "shape", "tf", "many")} for c in cases])
     tp = ctx.path(f"{label}_trace.ndjson")
     vlib.run_bin("invidx_driver", ["run", "--in", cp, "--out", tp], timeout=900, mem_gb=12)
     ev = _fid.clean(vlib.read_ndjson(tp))
@@ -263,6 +282,12 @@ def run(ctx):
         pi += k
     for t in tfs[:(8 if ctx.quick else len(tfs))]:
         cases.append(tf_case(len(cases), t, rng))
+    manys = [c for c in gen if c["what"] == "many"]
+    if len(manys) < 12:
+        raise vlib.ToolError("Gen_InvertedIndex produced no many-values cases")
+    for m in manys:
+        cases.append(many_case(len(cases), m, rng))
+    ctx.cov["many_values_cases"] = len(manys)
     for i in range(n_rich):
         cases.append(rich_case(len(cases), rng, special=(i % 6 == 0)))
     units, n_ok = run_cases(ctx, cases, "index")
